@@ -207,8 +207,14 @@ def _run_linear(ctx, case, tf, lin):
   if case["mode"] == "feasible":
     w = _lin_feasible(np.random.RandomState(core.seed_for("C06", 0, 0, core.arr_digest(w))), case)
     case["w"] = w.tolist()
+  # the documented spellings of a monotonicity: {-1, 0, 1} or {'decreasing', 'none', 'increasing'} (decided by the case content,
+  # so that stored witnesses replay)
+  mono_arg = case["mono"]
+  if (sum(case["mono"]) + n + units + len(case["rdom"])) % 3 == 1:
+    mono_arg = [{1: "increasing", -1: "decreasing", 0: "none"}[int(m)] for m in case["mono"]]
+    ctx.cls("spelling:strings")
   c = lin.LinearConstraints(
-      monotonicities=case["mono"], monotonic_dominances=[tuple(p) for p in case["mdom"]] or None,
+      monotonicities=mono_arg, monotonic_dominances=[tuple(p) for p in case["mdom"]] or None,
       range_dominances=[tuple(p) for p in case["rdom"]] or None,
       input_min=case["imin"], input_max=case["imax"], normalization_order=case["order"])
   ex = case.get("exec", "eager")
